@@ -9,10 +9,10 @@ import (
 
 func init() {
 	register(&Property{
-		ID: "C03",
+		ID:          "C03",
 		Explanation: "Decides structural necessary conditions of election safety: every writer of raft.term/vote/state is one of the classified shapes (reset on term change, guarded grant, self-vote after term+1, load at launch, become* family); the vote grant is guarded by can-grant AND log-up-to-date and the can-grant predicate reads the stored vote; leadership is assumed only under a quorum comparison of the vote tally (or single-node quorum); non-voting vote responses are dropped before the tally; no campaign while a committed config change is unapplied; response messages from unknown senders are dropped. Does not decide at-most-one-leader over schedules.",
-		NotCovered: "election safety over message schedules; vote durability across restart (C04/C10 clauses)",
-		Run:        runC03,
+		NotCovered:  "election safety over message schedules; vote durability across restart (C04/C10 clauses)",
+		Run:         runC03,
 	})
 }
 
@@ -278,28 +278,14 @@ func runC03(e *Engine, r *Report) {
 
 	// ---- no campaign with an unapplied config change
 	hasCC := r.need(raftT + "hasConfigChangeToApply")
-	campaign := r.need(raftT + "campaign")
-	pre := r.need(raftT + "preVoteCampaign")
 	tbl, err := e.RaftHandlerTable()
 	if err != nil {
 		r.undecided("TBL", "raft.handlers", err.Error())
 		return
 	}
-	if hasCC != nil && campaign != nil && pre != nil {
-		n := 0
-		for _, c := range tbl.Cells {
-			if c.Type != "Election" {
-				continue
-			}
-			for _, target := range []*ssa.Function{campaign, pre} {
-				for _, s := range e.SitesIn(c.Fn, target) {
-					n++
-					r.guard("GD-campaign", fname(target)+" in Election handler "+fname(c.Fn), s.(ssa.Instruction),
-						reqBool("hasConfigChangeToApply() is false", e.callV(hasCC), false))
-				}
-			}
-		}
-		r.floor("GD-campaign", n, 2)
+	ruleCampaignGuard(e, r, tbl)
+	ruleElectionMessageGuard(e, r)
+	if hasCC != nil {
 		// the predicate compares committed with applied
 		committed := r.needField("internal/raft", "entryLog", "committed")
 		if committed != nil {
@@ -307,6 +293,10 @@ func runC03(e *Engine, r *Report) {
 				"the pending-config-change test reads the commit index", "the pending-config-change test no longer reads the commit index")
 		}
 	}
+
+	// ---- hard-state comparisons cover term, vote and commit (a vote-only
+	// change must be seen as a change, or it is never persisted)
+	checkStateComparisons(e, r)
 
 	// ---- Peer.Handle: responses only from known members
 	peerHandle := r.need("(*internal/raft.Peer).Handle")
@@ -387,4 +377,57 @@ func canGrantTrueEdges(e *Engine, fn *ssa.Function, voteF, termF *types.Var) boo
 		}
 	})
 	return ok && n > 0
+}
+
+// checkStateComparisons: sibling rule over every function that decides
+// "did the hard state change?" by comparing fields of two pb.State values: if
+// it compares Term it must also compare Vote and Commit (directly or through
+// a callee that does).
+func checkStateComparisons(e *Engine, r *Report) {
+	fT := r.needField("raftpb", "State", "Term")
+	fV := r.needField("raftpb", "State", "Vote")
+	fC := r.needField("raftpb", "State", "Commit")
+	if fT == nil || fV == nil || fC == nil {
+		return
+	}
+	cmpFields := func(fn *ssa.Function) map[*types.Var]bool {
+		out := map[*types.Var]bool{}
+		forEachInstr(fn, func(in ssa.Instruction) {
+			b, ok := in.(*ssa.BinOp)
+			if !ok || (b.Op != token.EQL && b.Op != token.NEQ) {
+				return
+			}
+			fx, _, ok1 := loadedField(stripConv(b.X))
+			fy, _, ok2 := loadedField(stripConv(b.Y))
+			if ok1 && ok2 && fx == fy && (fx == fT || fx == fV || fx == fC) {
+				out[fx] = true
+			}
+		})
+		return out
+	}
+	n := 0
+	for _, fn := range e.ScopeFuncs() {
+		if !e.IsLive(fn) && fname(fn) != "raftpb.IsStateEqual" {
+			continue
+		}
+		cf := cmpFields(fn)
+		if len(cf) == 0 {
+			continue
+		}
+		n++
+		missing := ""
+		for _, f := range []*types.Var{fT, fV, fC} {
+			if !cf[f] {
+				if f == fC && fname(fn) == "internal/tan.stateSyncChange" {
+					r.exception("internal/tan.stateSyncChange compares Term and Vote only: it decides whether an fsync is needed, and a commit-only change need not be synced (the commit index is re-learned from the leader)")
+					continue
+				}
+				missing += " " + f.Name()
+			}
+		}
+		r.check(missing == "", "TBL-state-compare", "hard-state comparison in "+fname(fn), e.pos(fn.Pos()),
+			"the comparison covers Term, Vote and Commit",
+			"the hard-state comparison ignores"+missing+": a change of only that field is not treated as a change (not emitted / not persisted)")
+	}
+	r.floor("TBL-state-compare", n, 1)
 }
